@@ -424,6 +424,36 @@ class ModelMixin(ModelMixin2, ModelMixin3):
 
     def contains(self, container, item, st, node):
         Raise = _Raise()
+        # element in (a, b, *xs): Element equality is identity, so this is `is a or is b or in xs`
+        if isinstance(item, Ref) and item.kind == 'elem':
+            fixed, lists = None, []
+            if isinstance(container, TupleV) and all(isinstance(x, (Ref, NoneV)) for x in container.items):
+                fixed = container.items
+            elif isinstance(container, Ref) and container.kind == 'list':
+                le0 = st.get(container.sym)
+                if le0.kind == 'chain' and isinstance(le0.spec, tuple) and le0.spec and all(isinstance(p, tuple) and p and p[0] in ('fixed', 'list') for p in le0.spec):
+                    fixed = tuple(x for p in le0.spec if p[0] == 'fixed' for x in p[1])
+                    lists = [p[1] for p in le0.spec if p[0] == 'list' and p[1] in st.heap]
+                    if not all(isinstance(x, (Ref, NoneV)) for x in fixed):
+                        fixed = None
+            if fixed is not None:
+                outs, cur = [], [st]
+                for f in fixed:
+                    nxt = []
+                    for s in cur:
+                        for b, s2 in self.identical(item, f, s, node):
+                            (outs if b else nxt).append((True, s2) if b else s2)
+                    cur = nxt
+                for s in cur:
+                    live = [L for L in lists if s.get(L).hi != 0]
+                    if live:
+                        s_in = s.copy()
+                        self.stats['forks'] += 1
+                        outs.append((True, s_in))
+                    for L in lists + ([container.sym] if isinstance(container, Ref) else []):
+                        s.facts.add(('notin', item.sym, L))
+                    outs.append((False, s))
+                return outs
         if isinstance(container, TupleV):
             items = container.items
             if all(isinstance(x, (Const, ClsV, NoneV, ExtV)) for x in items) and isinstance(item, (Const, ClsV, NoneV, ExtV)):
@@ -836,6 +866,8 @@ class ModelMixin(ModelMixin2, ModelMixin3):
         return [(NoneV(), st)]
 
     def model_setitem(self, c: Val, i: Val, val: Val, st: State, node):
+        if isinstance(c, Ref) and c.kind == 'list' and c.sym in (st.mon.get('lastapp') or {}):
+            st.mon['lastapp'] = {k: v for k, v in st.mon['lastapp'].items() if k != c.sym}
         if isinstance(c, Ref) and c.kind == 'elem':
             if isinstance(i, NoneV):
                 return [(self.exc('TypeError', st, node, 'indices must be integers'), st)]
@@ -878,6 +910,8 @@ class ModelMixin(ModelMixin2, ModelMixin3):
         return [(NoneV(), st)]
 
     def model_slice_store(self, c, slc, bounds, val, st: State, node):
+        if isinstance(c, Ref) and c.kind == 'list' and c.sym in (st.mon.get('lastapp') or {}):
+            st.mon['lastapp'] = {k: v for k, v in st.mon['lastapp'].items() if k != c.sym}
         """parent[a:b] = nodes : replaces the whole range of existing children by the given nodes"""
         if isinstance(c, Ref) and c.kind == 'elem':
             width = self._slice_width(bounds, st)
@@ -944,6 +978,8 @@ class ModelMixin(ModelMixin2, ModelMixin3):
         return res
 
     def model_delitem(self, c, i, st, node):
+        if isinstance(c, Ref) and c.kind == 'list' and c.sym in (st.mon.get('lastapp') or {}):
+            st.mon['lastapp'] = {k: v for k, v in st.mon['lastapp'].items() if k != c.sym}
         if isinstance(c, Ref) and c.kind == 'elem' and isinstance(i, Ref) and i.kind == 'idx':
             ie: IdxE = st.get(i.sym)
             self.check_index(c, i, st, node, 'delitem')
